@@ -160,7 +160,8 @@ pub fn gen(seed: u64, count: usize, tier: &str, params: &Params) -> Vec<Value> {
     let maxlen: i64 = if tier == "thorough" { 64 } else { 40 };
     let mut cases = Vec::new();
     for c in 0..count {
-        let n = if c % 17 == 0 { rng.range(0, 3) } else { rng.range(1, maxlen) };
+        let longlanes = params.get("long").map(|s| s == "1").unwrap_or(false);
+        let n = if longlanes { rng.range(120, 200) } else if c % 17 == 0 { rng.range(0, 3) } else { rng.range(1, maxlen) };
         let n = if oor_den == 0 { n.max(1) } else { n };
         let distinct = match rng.below(4) {
             0 => 1 + rng.below(2) as i64,
